@@ -206,12 +206,12 @@ def generate(ctx, unrepaired):
     n1 = len(behs)
     # G2: simulation over the rich alphabet
     depth = 24 if quick else 32
-    num = 150 if quick else 1500
+    num = 150 if quick else 1000
     g2 = ctx.tlc_must("ValSet", G_CFG % ("1, 2, 3", "1, 2", depth, "rich", fixset(fix_now)), name="G2_simulate", timeout=2400,
                       simulate={"num": num}, depth=depth + 1)
     sim = [v["h"] for v in g2.printed if isinstance(v, dict) and v.get("kind") == "B"]
     random.Random(ctx.seed).shuffle(sim)
-    behs += sim[:(500 if quick else 4000)]
+    behs += sim[:(500 if quick else 3000)]
     ctx.note("behaviours: %d design counterexamples, %d bounded-exhaustive, %d simulated" % (ncex, n1 - ncex, len(behs) - n1))
     return behs, m, coded
 
